@@ -107,6 +107,13 @@ claim("C14", "other",
       "zip / sqlite / symlink I/O is not executed (in-memory file through nuwiki.open / os.path.exists stubs); texts and titles are pinned (enumerated by the solver) because simplejson's C encoder and the C regex/strip code cannot take symbolic values; the boundary collision of the record format is a recorded known finding.",
       "SMT-driven exhaustive symbolic execution (CrossHair/z3) of writer against reader on separator-fragment texts; real-directory replay", "§4 C14")
 
+claim("C11", "other",
+      "Bounded symbolic execution of the fetcher's data kernels: MwApi._do_request's continuation loop and result merging against a synthetic wiki whose batch cut points are z3 integers (0..5 pages, "
+      "three cuts, a server repeating its token must not cause a loop), MwApi.get_contributors (names from a list incl. bot names, symbolic anonymous counts, chunk cut, redirect), the path "
+      "Fetcher.get_edits -> _lookup_contributors -> authors store (what is stored under the plain / mapped title must be what the API reported) and split_blocks / get_block. All four cubes exhaust.",
+      "Kernels only: which pages and images get scheduled (closure over templates), redirect resolution, revision selection, image download, missing-page tolerance, greenlet interleavings and --no-images are NOT encoded; a change there is invisible to this check.",
+      "SMT-backed symbolic execution (CrossHair/z3) of data kernels with a synthetic-wiki stub", "§4 C11")
+
 NA["C02"] = "structure law over the C++ scanner + 20 regex-driven passes: symbolic document shapes degenerate to enumerating concrete documents, no solver-decided bound of interest (DESIGN §5)"
 NA["C07"] = "losslessness is a law about document shapes x pass interactions: word identity, not word content, matters, so nothing in it is solver-relevant; making the shape symbolic degenerates into enumerating concrete documents (measured: the full 58-pass sequence under the tracer costs 0.7-4 s per path and no symbolic value reaches a branch), which is not this technique (DESIGN §4 C07)"
 NA["C08"] = "reportlab / odfpy / pdftk do the essential work (C code, floats, external processes); every input realizes immediately, nothing for a solver to decide (DESIGN §5)"
